@@ -3,6 +3,7 @@ package drivers
 import (
 	"bytes"
 	"encoding/json"
+	"io"
 	"math/rand"
 	"runtime"
 	"runtime/debug"
@@ -70,10 +71,10 @@ func measure(f func() error) (outcome, detail string, allocKB, stackKB, ms int) 
 }
 
 type robustStruct struct {
-	A  uint32                    `avp:"V-Unsigned32"`
-	O  datatype.OctetString      `avp:"V-OctetString"`
-	T  datatype.Time             `avp:"V-Time"`
-	Ad datatype.Address          `avp:"V-Address"`
+	A  uint32               `avp:"V-Unsigned32"`
+	O  datatype.OctetString `avp:"V-OctetString"`
+	T  datatype.Time        `avp:"V-Time"`
+	Ad datatype.Address     `avp:"V-Address"`
 	G  struct {
 		A uint32 `avp:"V-Unsigned32"`
 		O string `avp:"V-OctetString"`
@@ -132,6 +133,9 @@ func runRobust(id int, in []byte, recipe string, dp *dict.Parser, out *Out, slow
 		post("String", func() (int, error) { return len(m.String()), nil })
 		post("PrettyDump", func() (int, error) { return len(m.PrettyDump()), nil })
 		post("Serialize", func() (int, error) { b, err := m.Serialize(); return len(b), err })
+		post("WriteTo", func() (int, error) { n, err := m.WriteTo(io.Discard); return int(n), err })
+		post("Answer", func() (int, error) { b, err := m.Answer(2001).Serialize(); return len(b), err })
+		post("Len", func() (int, error) { return m.Len(), nil })
 		post("Unmarshal", func() (int, error) { var s robustStruct; return 0, m.Unmarshal(&s) })
 		post("FindAVP", func() (int, error) { _, err := m.FindAVP(uint32(9001), dict.UndefinedVendorID); return 0, err })
 		post("FindAVPs", func() (int, error) { _, err := m.FindAVPs("V-OctetString", dict.UndefinedVendorID); return 0, err })
@@ -216,6 +220,18 @@ func nested(depth int) []byte {
 	return msgBytes(inner, abs.VCmd, abs.VApp, 0x80)
 }
 
+// nestedMax: the deepest nest a message can hold - a 16 MiB message of grouped AVP headers only,
+// built in linear time (level d starts at offset 8*d and spans the rest).
+func nestedMax() []byte {
+	depth := (1<<24 - 1 - 20) / 8
+	body := make([]byte, 8*depth)
+	for d := 0; d < depth; d++ {
+		l := 8 * (depth - d)
+		copy(body[8*d:], []byte{0, 0, 0x23, 0x3a, 0x40, byte(l >> 16), byte(l >> 8), byte(l)})
+	}
+	return msgBytes(body, abs.VCmd, abs.VApp, 0x80)
+}
+
 func Robust(a Args) error {
 	out, err := NewOut(a.Out)
 	if err != nil {
@@ -243,6 +259,8 @@ func Robust(a Args) error {
 			// beyond a few thousand levels only decoding is exercised: rendering and re-serialising such
 			// nests is quadratic (a recorded finding) and would exhaust the machine
 			runRobust(1, nested(depth), "nested-groups-depth", vp, out, 600000, depth > 2048)
+		case "maxnest":
+			runRobust(1, nestedMax(), "nested-groups-depth", vp, out, 600000, true)
 		}
 		return nil
 	}
